@@ -12,13 +12,14 @@ import os
 
 import vlib
 
-CONST = 'CONSTANTS Sess = {%s} Ids = {%s} Deadlines = {%s} Sweeps = {%s}\n Sec = 1000 Depth = %d GenKinds = {%s}\n'
+CONST = 'CONSTANTS Sess = {%s} Ids = {%s} Deadlines = {%s} Sweeps = {%s}\n Sec = 1000 Depth = %d GenKinds = {%s} GenAcks = {%s} Pre <- %s\n'
 TAIL = "SPECIFICATION GSpec\nCONSTRAINT Dump\nCHECK_DEADLOCK FALSE\n"
 
 
-def gen(run, name, ids, deadlines, sweeps, depth, kinds, simulate=None, sess=("s1", "s2")):
+def gen(run, name, ids, deadlines, sweeps, depth, kinds, simulate=None, sess=("s1", "s2"), pre="NoPre",
+        acks=("PUBACK", "PUBREC", "PUBREL", "PUBCOMP")):
     text = CONST % (", ".join('"%s"' % x for x in sess), ", ".join(map(str, ids)), ", ".join(map(str, deadlines)), ", ".join(map(str, sweeps)), depth,
-                    ", ".join('"%s"' % k for k in kinds)) + TAIL
+                    ", ".join('"%s"' % k for k in kinds), ", ".join('"%s"' % k for k in acks), pre) + TAIL
     return vlib.gen_behaviours(run, "AckQueueGen", "Gen_AckQueue_%s.cfg" % name, text,
                                simulate=simulate, depth=depth + 1 if simulate else None,
                                workers=1)
@@ -88,6 +89,10 @@ def check(run):
                     ["pub0", "pub1", "pub2", "pubrec", "pubrel"], sess=["s1"])
         scns += gen(run, "sim", [0, 1, 2], [5000, 5300, 5600, 1000, 60000], [2500, 4500, 5200, 6400, 9000, 70000], 9,
                     ["pub0", "pub1", "pub2", "pubrec", "pubrel"], simulate="num=600")
+    # three entries in one second with distinct sub-second deadlines (every assignment to the ids), then every sequence of
+    # acknowledgements, re-registrations with a later deadline and sweeps: buckets with several items, ids re-used
+    for pre in ("Pre123", "Pre132", "Pre213", "Pre231", "Pre312", "Pre321"):
+        scns += gen(run, "bk" + pre, [1, 2, 3], [9000], [7000, 20000], 4 if not thorough else 5, ["pub1"], sess=["s1"], pre=pre, acks=["PUBACK"])
     # de-duplicate across generators
     uniq = {}
     for s in scns:
